@@ -256,17 +256,18 @@ Definition vand := bitop N.land.
 Definition vor := bitop N.lor.
 Definition vxor := bitop N.lxor.
 
-(* Value::shift_length — the Generic payload is used as it is (not masked) *)
-Definition shift_length (v : value) : res N :=
+(* Value::shift_length(self, addr_mask) — a generic count is reduced by the address mask *)
+Definition shift_length (v : value) (mask : N) : res N :=
   match tclass_of (vty v) with
-  | CGeneric | CUnsigned => Ok (vbits v)
+  | CGeneric => Ok (N.land (vbits v) mask)
+  | CUnsigned => Ok (vbits v)
   | CSigned => if (0 <=? sgn (width (vty v)) (vbits v))%Z then Ok (vbits v) else Err EInvalidShiftExpression
   | CFloat => Err EInvalidShiftExpression
   end.
 
 (* Value::shl *)
 Definition vshl (a b : value) (mask : N) : res value :=
-  let* v2 := shift_length b in
+  let* v2 := shift_length b mask in
   let t := vty a in
   match tclass_of t with
   | CGeneric => Ok (mkV t (if mask_bit_size mask <=? v2 then 0
@@ -277,7 +278,7 @@ Definition vshl (a b : value) (mask : N) : res value :=
 
 (* Value::shr *)
 Definition vshr (a b : value) (mask : N) : res value :=
-  let* v2 := shift_length b in
+  let* v2 := shift_length b mask in
   let t := vty a in
   match tclass_of t with
   | CGeneric => Ok (mkV t (if mask_bit_size mask <=? v2 then 0 else N.shiftr (N.land (vbits a) mask) v2))
@@ -288,7 +289,7 @@ Definition vshr (a b : value) (mask : N) : res value :=
 
 (* Value::shra *)
 Definition vshra (a b : value) (mask : N) : res value :=
-  let* v2 := shift_length b in
+  let* v2 := shift_length b mask in
   let t := vty a in
   match tclass_of t with
   | CGeneric =>
